@@ -266,7 +266,10 @@ class _CallPatchARM64(_CallPatchImpl):
         # For small values, let the assembler pick the best instruction to
         # load the immediate.
         if -0xFFFF <= value <= 0xFFFF:
-            yield f"mov {reg}, #0x{value:x}"
+            # Formatting a negative number with :x puts the sign after the
+            # "0x" prefix, which is not valid assembly.
+            imm = f"0x{value:x}" if value >= 0 else f"-0x{-value:x}"
+            yield f"mov {reg}, #{imm}"
             return
 
         # TODO: This could be more optimal, particularly for negative numbers.
